@@ -1,0 +1,12 @@
+//go:build verif
+
+package db
+
+// Contracts for govc (see /verif/DESIGN.md, C12 / C19). Comment-only; compiled only with -tags verif.
+
+// Update and View are inlined at their call sites so that the transaction closure is verified in the
+// caller's context (lock state, ghost transaction state).
+//@ func Update
+//@   attr inline
+//@ func View
+//@   attr inline
